@@ -11,26 +11,42 @@ a local no-collision hypothesis) and every blob of the object that the store alr
 such a key holds the same bytes (no damaged or colliding leftovers). -/
 namespace Cafs
 
-/-- the store has nothing, or the right bytes, under `k` -/
-def Compat (s : Store) (k d : Bytes) : Prop := s.get k = none ∨ s.get k = some d
+/-- what `writeBlob` turns into the right bytes: the store has nothing under `k`, or the right bytes,
+    or an EMPTY blob (what an interrupted upload leaves: `existsAndValidBlob` overwrites it), or — on
+    stores that report a CRC — anything at all (a CRC mismatch is overwritten) -/
+def Compat (crc : Bool) (s : Store) (k d : Bytes) : Prop :=
+  s.get k = none ∨ s.get k = some d ∨ s.get k = some [] ∨ crc = true
 
-theorem writeBlob_get_self (crc : Bool) (s : Store) (k d : Bytes) (h : Compat s k d) :
+theorem writeBlob_get_self (crc : Bool) (s : Store) (k d : Bytes) (h : Compat crc s k d) :
     (writeBlob crc s k d).get k = some d := by
   unfold writeBlob
-  rcases h with h | h
+  rcases h with h | h | h | h
   · rw [h]; exact get_cons_eq s k d
   · rw [h]
     by_cases hc : d = [] ∨ (crc = true ∧ d ≠ d)
     · simp only [hc, if_true]; exact get_cons_eq s k d
     · simp only [hc, if_false]; exact h
+  · rw [h]
+    simp only [true_or, if_true]; exact get_cons_eq s k d
+  · cases hg : s.get k with
+    | none => exact get_cons_eq s k d
+    | some d' =>
+      by_cases hc : d' = [] ∨ (crc = true ∧ d' ≠ d)
+      · simp only [hc, if_true]; exact get_cons_eq s k d
+      · simp only [hc, if_false]
+        have : d' = d := by
+          by_cases e : d' = d
+          · exact e
+          · exact absurd (Or.inr ⟨h, e⟩) hc
+        rw [hg, this]
 
-theorem writeBlob_compat (crc : Bool) (s : Store) (k d k1 d1 : Bytes) (h : Compat s k d) (h1 : Compat s k1 d1)
-    (hco : k = k1 → d = d1) : Compat (writeBlob crc s k1 d1) k d := by
+theorem writeBlob_compat (crc : Bool) (s : Store) (k d k1 d1 : Bytes) (h : Compat crc s k d) (h1 : Compat crc s k1 d1)
+    (hco : k = k1 → d = d1) : Compat crc (writeBlob crc s k1 d1) k d := by
   by_cases hk : k = k1
   · subst hk
     have := hco rfl
     subst this
-    right; exact writeBlob_get_self crc s k d h1
+    right; left; exact writeBlob_get_self crc s k d h1
   · unfold Compat
     rw [writeBlob_frame crc s k1 d1 k hk]
     exact h
@@ -39,8 +55,8 @@ theorem writeBlob_compat (crc : Bool) (s : Store) (k d k1 d1 : Bytes) (h : Compa
 def Coherent (kvs : List (Bytes × Bytes)) : Prop := ∀ p ∈ kvs, ∀ q ∈ kvs, p.1 = q.1 → p.2 = q.2
 
 theorem writeBlobs_compat (crc : Bool) (kvs : List (Bytes × Bytes)) :
-    ∀ (s : Store) (k d : Bytes), Compat s k d → (∀ p ∈ kvs, Compat s p.1 p.2) → Coherent kvs →
-      (∀ p ∈ kvs, k = p.1 → d = p.2) → Compat (writeBlobs crc s kvs) k d := by
+    ∀ (s : Store) (k d : Bytes), Compat crc s k d → (∀ p ∈ kvs, Compat crc s p.1 p.2) → Coherent kvs →
+      (∀ p ∈ kvs, k = p.1 → d = p.2) → Compat crc (writeBlobs crc s kvs) k d := by
   induction kvs with
   | nil => intro s k d h _ _ _; exact h
   | cons p r ih =>
@@ -69,13 +85,13 @@ theorem writeBlobs_stays (crc : Bool) (kvs : List (Bytes × Bytes)) :
       · subst e
         have := hk (k, d1) (by simp) rfl
         subst this
-        exact writeBlob_get_self crc s k d (Or.inr h)
+        exact writeBlob_get_self crc s k d (Or.inr (Or.inl h))
       · rw [writeBlob_frame crc s k1 d1 k e]; exact h
     · intro q hq; exact hk q (by simp [hq])
 
 /-- after writing coherent, compatible bindings every one of them is served -/
 theorem writeBlobs_all (crc : Bool) (kvs : List (Bytes × Bytes)) :
-    ∀ (s : Store), (∀ p ∈ kvs, Compat s p.1 p.2) → Coherent kvs →
+    ∀ (s : Store), (∀ p ∈ kvs, Compat crc s p.1 p.2) → Coherent kvs →
       ∀ p ∈ kvs, (writeBlobs crc s kvs).get p.1 = some p.2 := by
   induction kvs with
   | nil => intro s _ _ p hp; simp at hp
@@ -153,7 +169,7 @@ def objectBlobs (H : Hash) (L : Nat) (c : Bytes) : List (Bytes × Bytes) :=
 theorem put_serves (H : Hash) (crc : Bool) (L : Nat) (hL : 0 < L) (s : Store) (writes : List Bytes)
     (hlen : ∀ p b, (H p b).length = keySize)
     (hco : Coherent (objectBlobs H L writes.flatten))
-    (hs : ∀ p ∈ objectBlobs H L writes.flatten, Compat s p.1 p.2) :
+    (hs : ∀ p ∈ objectBlobs H L writes.flatten, Compat crc s p.1 p.2) :
     ∃ keys, objectKeys H L (put H crc L s writes).1 (put H crc L s writes).2.key = .ok keys ∧
       keys.length = (chunks L writes.flatten).length ∧
       Serves (fetchLeaf H true L (put H crc L s writes).1 keys) (chunks L writes.flatten) := by
@@ -181,7 +197,7 @@ theorem put_serves (H : Hash) (crc : Bool) (L : Nat) (hL : 0 < L) (s : Store) (w
   -- the leaves are served by s1, and still by s2
   have hserve1 : ∀ p ∈ ks.zip cs, s1.get p.1 = some p.2 :=
     writeBlobs_all crc (ks.zip cs) s (fun p hp => hs p (hleafmem p hp)) hcoL
-  have hrootc : Compat s1 root (ks.flatten ++ root) :=
+  have hrootc : Compat crc s1 root (ks.flatten ++ root) :=
     writeBlobs_compat crc (ks.zip cs) s root _ (hs _ hrootmem) (fun p hp => hs p (hleafmem p hp)) hcoL
       (fun p hp e => hco _ hrootmem p (hleafmem p hp) e)
   have hgetroot : s2.get root = some (ks.flatten ++ root) := writeBlob_get_self crc s1 root _ hrootc
@@ -239,7 +255,7 @@ theorem put_serves (H : Hash) (crc : Bool) (L : Nat) (hL : 0 < L) (s : Store) (w
 theorem C01_put_then_readAll (H : Hash) (crc : Bool) (L : Nat) (hL : 0 < L) (s : Store) (writes : List Bytes)
     (hlen : ∀ p b, (H p b).length = keySize)
     (hco : Coherent (objectBlobs H L writes.flatten))
-    (hs : ∀ p ∈ objectBlobs H L writes.flatten, Compat s p.1 p.2) :
+    (hs : ∀ p ∈ objectBlobs H L writes.flatten, Compat crc s p.1 p.2) :
     ∃ keys, objectKeys H L (put H crc L s writes).1 (put H crc L s writes).2.key = .ok keys ∧
       readAll H true L (put H crc L s writes).1 keys = .ok writes.flatten ∧
       ∀ off n, readAt H true L (put H crc L s writes).1 keys off n = .ok ((writes.flatten.drop off).take n) := by
@@ -256,7 +272,7 @@ theorem C01_put_then_readAll (H : Hash) (crc : Bool) (L : Nat) (hL : 0 < L) (s :
 theorem C01_put_then_readSeq (m : RMode) (H : Hash) (crc : Bool) (L : Nat) (hL : 0 < L) (s : Store) (writes : List Bytes)
     (hlen : ∀ p b, (H p b).length = keySize)
     (hco : Coherent (objectBlobs H L writes.flatten))
-    (hs : ∀ p ∈ objectBlobs H L writes.flatten, Compat s p.1 p.2) (bufs : List Nat) :
+    (hs : ∀ p ∈ objectBlobs H L writes.flatten, Compat crc s p.1 p.2) (bufs : List Nat) :
     ∃ keys, objectKeys H L (put H crc L s writes).1 (put H crc L s writes).2.key = .ok keys ∧
       (readSeq m H true L (put H crc L s writes).1 keys bufs SR.init).1 = writes.flatten.take bufs.sum ∧
       ((readSeq m H true L (put H crc L s writes).1 keys bufs SR.init).2 = .ok ∨
@@ -278,7 +294,7 @@ def toy64 : Hash := fun p b => List.replicate 62 0 ++ [UInt8.ofNat p.depth, UInt
 /-- non-vacuity of `C01_put_then_readAll`: the hypotheses hold for a three-byte content with leaf
     size 2 on the empty store (digest length, coherence, compatibility) -/
 example : (∀ p b, (toy64 p b).length = keySize) ∧ Coherent (objectBlobs toy64 2 [1, 2, 3]) ∧
-    ∀ p ∈ objectBlobs toy64 2 [1, 2, 3], Compat ([] : Store) p.1 p.2 := by
+    ∀ p ∈ objectBlobs toy64 2 [1, 2, 3], Compat false ([] : Store) p.1 p.2 := by
   refine ⟨fun p b => by simp [toy64, keySize], ?_, fun p _ => Or.inl rfl⟩
   have e : objectBlobs toy64 2 [1, 2, 3] =
       [(toy64 ⟨2, 1, 0, false⟩ [1, 2], [1, 2]), (toy64 ⟨2, 1, 0, true⟩ [3], [3]),
@@ -291,5 +307,10 @@ example : (∀ p b, (toy64 p b).length = keySize) ∧ Coherent (objectBlobs toy6
   simp only [List.mem_cons, List.mem_nil_iff, or_false] at ha hb
   rcases ha with rfl | rfl | rfl <;> rcases hb with rfl | rfl | rfl <;>
     first | rfl | (exfalso; revert hk; simp [toy64])
+
+/-- the crash-remnant case is covered (and is not vacuous): a store that holds an EMPTY blob under
+    a leaf key of the object satisfies the hypothesis, on stores without CRC as well -/
+example : Compat false ([(toy64 ⟨2, 1, 0, true⟩ [3], [])] : Store) (toy64 ⟨2, 1, 0, true⟩ [3]) [3] :=
+  Or.inr (Or.inr (Or.inl (by simp [Store.get, List.lookup])))
 
 end Cafs
